@@ -211,10 +211,22 @@ class Oracle:
         return self._parse(line)
 
     def call_many(self, reqs, chunk=256):
+        # a batch is at most `chunk` requests AND at most 32 KiB of request text, so that writing
+        # it can never block on the 64 KiB pipe while the oracle blocks writing its replies
         out = []
-        for i in range(0, len(reqs), chunk):
-            part = reqs[i:i + chunk]
-            self.p.stdin.write("".join("%d %s\n" % (e, " ".join(map(str, a))) for e, a in part))
+        i = 0
+        while i < len(reqs):
+            part, lines, size = [], [], 0
+            while i < len(reqs) and len(part) < chunk:
+                e, a = reqs[i]
+                ln = "%d %s\n" % (e, " ".join(map(str, a)))
+                if part and size + len(ln) > 32768:
+                    break
+                part.append((e, a))
+                lines.append(ln)
+                size += len(ln)
+                i += 1
+            self.p.stdin.write("".join(lines))
             self.p.stdin.flush()
             for (e, a) in part:
                 line = self.p.stdout.readline()
